@@ -3,6 +3,7 @@ import AslProofs.Xml
 import AslProofs.XmlRt
 import AslProofs.XmlIds
 import AslProofs.XmlNorm
+import AslProofs.XmlOwn
 import AslProps.C07Spec
 /-!
 # C07 — XML decoding is total and safe; encode then decode preserves the tree
@@ -130,6 +131,40 @@ theorem xml_node_ids_unique (x : Bytes) (n : Node) (h : decode x = .node n) : (i
 /-- the hypotheses are satisfiable: `<a><b/>t</a>` decodes to an element with two children -/
 example : ∃ n, decode [60, 97, 62, 60, 98, 47, 62, 116, 60, 47, 97, 62] = .node n ∧ (children n).length = 2 := by
   refine ⟨_, rfl, ?_⟩
+  decide
+
+/-! ## ownership: handles, reference counts, `~_Xml` (model `AslModel/XmlOwn.lean`, K op `own`)
+
+Nodes with a stored count, an owning child array and a raw parent pointer; histories of the public mutators
+(`Xml(tag)`, `<<`, `remove(int)`, `clear()`, `child(i)`, `parent()`, handle assignment and destruction) over four
+handle variables.  `~_Xml` and `orphan()` are transcribed (not postulated as in `survivor` / `detachedBy` above). -/
+
+/-- after ANY history of mutators and handle drops, a non-null raw `parent` pointer of any node designates a node that
+    is allocated, NOT destroyed, and has the pointing node in its child array: `parent()` never reads freed memory
+    and "every child's parent() is the element that contains it" survives mutation, sharing of a child between two
+    elements and release of containers in any order -/
+theorem xml_parent_never_dangles (ops : List AslModel.XmlOwn.Op) (c p : Nat)
+    (h : ((AslModel.XmlOwn.run .init ops).node c).parent = some p) :
+    ((AslModel.XmlOwn.run .init ops).node p).live = true ∧ c ∈ ((AslModel.XmlOwn.run .init ops).node p).kids ∧
+      p < (AslModel.XmlOwn.run .init ops).next :=
+  AslProofs.XmlOwn.parentsOK_run ops _ AslProofs.XmlOwn.parentsOK_init c p h
+
+/-- the same read through a handle variable: `w.parent()` of a held node is a null object or a live element `p`
+    with `w` among `p`'s children -/
+theorem xml_handle_parent_live (ops : List AslModel.XmlOwn.Op) (v n p : Nat)
+    (_hv : (AslModel.XmlOwn.run .init ops).var v = some n)
+    (h : ((AslModel.XmlOwn.run .init ops).node n).parent = some p) :
+    ((AslModel.XmlOwn.run .init ops).node p).live = true ∧ n ∈ ((AslModel.XmlOwn.run .init ops).node p).kids :=
+  let r := xml_parent_never_dangles ops n p h
+  ⟨r.1, r.2.1⟩
+
+/-- non-vacuity: `a << b` gives `b` a non-null parent (hypothesis satisfiable) ... -/
+example : ((AslModel.XmlOwn.run .init [.new 0, .new 1, .append 0 1]).node 1).parent = some 0 ∧
+    (AslModel.XmlOwn.run .init [.new 0, .new 1, .append 0 1]).var 1 = some 1 := by decide
+
+/-- ... and destroying the only handle of `a` runs `~_Xml`: `a` is dead, `b` survives with a null parent, no fault -/
+example : let h := AslModel.XmlOwn.run .init [.new 0, .new 1, .append 0 1, .drop 0]
+    (h.node 0).live = false ∧ (h.node 1).live = true ∧ (h.node 1).parent = none ∧ (h.node 1).rc = 1 ∧ h.fault = false := by
   decide
 
 /-! ## encode then decode
